@@ -26,6 +26,7 @@ type FuncContract struct {
 	LoopInv    map[int][]Clause // loop ordinal (1-based, pre-order) -> invariants
 	LoopMod    map[int][]string // extra havoc targets
 	NoPanic    bool
+	AssumeNoPanic map[string]string // callee -> reason: taken not to panic when called from this nopanic function
 	Recovers   bool // every panic raised while the body runs is caught by a deferred recover of this function (structural rule)
 	Inline     bool
 	Assumed    bool // assume-contract: body not verified
@@ -264,6 +265,16 @@ func (pc *PkgContracts) parseFile(path string) error {
 				cur.NoPanic = true
 			case "recovers":
 				cur.Recovers = true
+			case "assume-nopanic":
+				// assume-nopanic <callee>: <reason>  -- the named callee is taken not to panic in this context (recorded as an assumption)
+				i := strings.Index(rest, ":")
+				if i < 0 {
+					return fmt.Errorf("%s:%d: assume-nopanic needs 'callee: reason'", path, l.line)
+				}
+				if cur.AssumeNoPanic == nil {
+					cur.AssumeNoPanic = map[string]string{}
+				}
+				cur.AssumeNoPanic[strings.TrimSpace(rest[:i])] = strings.TrimSpace(rest[i+1:])
 			case "safe":
 				for _, k := range strings.FieldsFunc(rest, func(r rune) bool { return r == ',' || r == ' ' }) {
 					cur.Safe[k] = true
